@@ -280,11 +280,14 @@ def gen_deps(seed: int, n: int, uncached_p: float = 0.3) -> List[Scn]:
     for _ in range(n):
         deps = _rand_deps(rng, 4, uncached_p, 0.2)
         M = rng.randint(1, 3)
-        cfg = {"A": rng.choice([0, 2, 3]), "P": rng.choice([0, 1, 2]), "deps": deps,
+        mws = []
+        if rng.random() < 0.35:
+            mws = [{rng.choice(["onerr", "post", "pre", "postsave"]): rng.choice(["raise", "sync", "async", "future"])}]
+        cfg = {"A": rng.choice([0, 2, 3]), "P": rng.choice([0, 1, 2]), "deps": deps, "mws": mws,
                "propagate": rng.random() < 0.6,
                "ack": rng.choice(["default", "when_executed", "when_received"]),
                "msgs": _msgs(rng, M, ["valid"], ["ta", "ta", "ts", "ta0"], instant_p=0.3,
-                             outcomes=["ret", "exc", "base", "nores"], timeout_p=0.25)}
+                             outcomes=["ret", "exc", "base", "nores", "falsy"], timeout_p=0.25, dup_p=0.3)}
         steps: List[Any] = [["arrive", rng.randint(1, M)]]
         for _ in range(rng.randint(0, 12)):
             r = rng.random()
